@@ -48,14 +48,24 @@ SPEC = {
              "interface}), built with reflect.MakeFunc, under 108 names on one private plugin.NewRegistry(), and drives one rapid-drawn "
              "script (default config; 1-3 sessions of settings + fillConf/constructor failures at NewFactory + 1-4 creations each with an "
              "optional failing fillConf / constructor / registered factory and an optional in-place mutation of the product's config) "
-             "through each shape in all three requested forms (New, NewFactory func() (I, error), NewFactory func() I) = 324 combinations. "
-             "TestSequences: one random shape x form (+ 0-2 other registrations in the same registry) with 1-5 sessions of 1-8 creations. "
+             "through each shape in all five requested forms (New; NewFactory func() (I, error); NewFactory func() I; and - added after "
+             "seeded defect C18/m14 - NewFactory of the DEFINED func types `type CompFactory func() (I, error)` and `type "
+             "CompFactoryNoErr func() I`, which must yield a value of exactly the requested type) = 540 combinations. Every failing "
+             "constructor / registered-factory call also draws what it returns BESIDE its error (added after seeded defect C18/m13): "
+             "nil, a NON-NIL first result (a half-built component; a failing factory constructor: a working factory) or - interface "
+             "result types - an interface holding a nil pointer; the error has to arrive all the same, in component form and in "
+             "every factory form, and a factory returned beside an error must not be used. "
+             "TestSequences: one random shape x form (+ 0-2 other registrations in the same registry) with 1-5 sessions of 1-8 creations; "
+             "one factory form in six requests the defined func type; the same beside-the-error dimension. "
              "TestConfigPath: 15 component types registered once on the global registry, created through pandora's real decoder + "
              "pluginconfig hooks into interface / func() (I, error) / func() I fields with generated settings, bad settings (unknown key, "
              "wrong type, validation), failing constructors / factories, 1-5 products; 8 of the types ({component, factory} x {struct, "
              "pointer config} x {default-config function, none} x error results) have a config whose validate rules (`s` required, "
              "`n` min=1) the registered default - or the zero config - does not pass, and are created from a section holding only the "
-             "type key, from one that sets what the default lacks, and from any subset of the options. TestConcurrentFactory (race-detector build in both tiers): one COMPONENT constructor "
+             "type key, from one that sets what the default lacks, and from any subset of the options; one factory field in three has "
+             "the defined func type CompFactory / CompFactoryNoErr (the decoder must fill it with a working factory of that type), and "
+             "failing constructors / registered factories return nil, a non-nil result (factory constructors: a working factory) or a "
+             "typed nil beside their error, which must surface at decode / at every product all the same. TestConcurrentFactory (race-detector build in both tiers): one COMPONENT constructor "
              "taking a config (struct / pointer x default func / none x error result x result type), 1-2 factories made from it with "
              "different settings (func() (I, error) or func() I); after 0-5 sequential products every factory is called from 2-6 "
              "goroutines at once, 10-120 times each (3 of 4 cases: fillConf lets the goroutines of a factory leave it together). "
@@ -121,6 +131,19 @@ SPEC = {
         "TestShapes/fillconf_error": 0.18, "TestShapes/constructor_error": 0.2, "TestShapes/registered_factory_error": 0.2,
         "TestShapes/newfactory_error": 0.19, "TestShapes/config_mutated_by_product": 0.35, "TestShapes/independence_checked": 0.5,
         "TestShapes/same_type_no_wrap": 0.5,
+        # classes added after seeded defects C18/m13 (error returned together with a non-nil result) and C18/m14 (defined factory types)
+        "TestShapes/error_beside_nonnil_result_component_form": 0.1, "TestShapes/error_beside_nonnil_result_factory_form": 0.09,
+        "TestShapes/error_beside_typed_nil_component_form": 0.09, "TestShapes/error_beside_typed_nil_factory_form": 0.09,
+        "TestShapes/error_beside_nonnil_factory_at_newfactory": 0.06,
+        "TestShapes/named_factory_type": 0.5, "TestShapes/named_factory_type_same_signature": 0.45,
+        "TestSequences/error_beside_nonnil_result_component_form": 0.02, "TestSequences/error_beside_nonnil_result_factory_form": 0.04,
+        "TestSequences/error_beside_typed_nil_component_form": 0.008, "TestSequences/error_beside_typed_nil_factory_form": 0.024,
+        "TestSequences/error_beside_nonnil_factory_at_newfactory": 0.014,
+        "TestSequences/named_factory_type": 0.05, "TestSequences/named_factory_type_same_signature": 0.005,
+        "TestConfigPath/field_of_named_factory_type": 0.11, "TestConfigPath/field_of_named_factory_type_factory_constructor": 0.035,
+        "TestConfigPath/field_of_named_factory_type_products_made": 0.055,
+        "TestConfigPath/error_beside_nonnil_result": 0.02, "TestConfigPath/error_beside_typed_nil": 0.002,
+        "TestConfigPath/error_beside_nonnil_result_component_field": 0.004, "TestConfigPath/error_beside_nonnil_result_factory_field": 0.015,
         "TestSequences/kind_component": 0.24, "TestSequences/kind_factory": 0.3, "TestSequences/conf_none": 0.1,
         "TestSequences/conf_struct": 0.25, "TestSequences/conf_ptr": 0.18, "TestSequences/default_func": 0.25,
         "TestSequences/default_nilptr": 0.04, "TestSequences/form_new": 0.12, "TestSequences/form_factory_err": 0.25,
@@ -137,8 +160,10 @@ SPEC = {
         "TestConfigPath/default_invalid_component_factory_noerr": 0.012, "TestConfigPath/default_invalid_factory_component": 0.008,
         "TestConfigPath/default_invalid_factory_factory_err": 0.015, "TestConfigPath/default_invalid_factory_factory_noerr": 0.015,
     },
-    "required_classes": _shape_classes() + ["TestIllegalRegistrations/illegal_" + n for n in _ILLEGAL],
-    "exhaustive_note": ("constructor-shape cross product: 108 shapes x 3 requested forms = 324 combinations are ALL executed by every "
+    "required_classes": (_shape_classes() + ["TestIllegalRegistrations/illegal_" + n for n in _ILLEGAL]
+                         + ["TestShapes/form_" + f for f in ("new", "factory_err", "factory_noerr", "named_factory_err", "named_factory_noerr")]),
+    "exhaustive_note": ("constructor-shape cross product: 108 shapes x 5 requested forms (component, unnamed and defined factory type "
+                        "with / without error result) = 540 combinations are ALL executed by every "
                         "TestShapes case (exhaustive for that sub-space; the call sequences driven through them are sampled)"),
     "manifest": {
         "technique": ("model-based property testing (rapid): exhaustive enumeration of the reflect.MakeFunc-built constructor-shape cross "
@@ -147,7 +172,10 @@ SPEC = {
                  "overlay generated settings. After every New / NewFactory / factory call the harness compares with the model: the "
                  "constructor received (and the product holds) registered default overlaid by the settings; fillConf always gets a valid, "
                  "fresh struct pointer holding exactly the default; an injected error arrives as the error result, or as a panic carrying "
-                 "that very error value exactly when the requested factory type has no error result, and never both ways; for component "
+                 "that very error value exactly when the requested factory type has no error result, and never both ways - also when the "
+                 "failing constructor or registered factory hands back a non-nil (or typed-nil) first result together with the error, as "
+                 "pandora's own phout aggregator registration does; a factory requested as a defined func type is a value of that type "
+                 "(through the registry and when the decoder fills a struct field of that type); for component "
                  "constructors fillConf and the constructor run exactly once per product (none when the factory is made), products' "
                  "configs are pointer-distinct and unaffected by other products scribbling over their slices/maps; for factory "
                  "constructors fillConf and the constructor run once per NewFactory and the registered factory once per product; other "
